@@ -569,4 +569,379 @@ theorem renameTier_atomic (g : Tg Int) (hnd : g.names.Nodup) (old new : String)
         rw [if_neg hc] at hr
         cases hr
 
+/-! ## PointTier.insertEntry -/
+
+def pdelPartial (ps : List (Pt Int)) : List (Pt Int) → List (Pt Int)
+  | [] => ps
+  | m :: ms => match deletePt ps m with
+    | .ok ps' => pdelPartial ps' ms
+    | .error _ => ps
+
+theorem pdelPartial_ok {ps ml r : List (Pt Int)} (h : ml.foldlM deletePt ps = .ok r) : pdelPartial ps ml = r := by
+  induction ml generalizing ps with
+  | nil => simpa [pdelPartial, pure, Except.pure] using h
+  | cons m ms ih =>
+    simp only [List.foldlM_cons] at h
+    cases hm : deletePt ps m with
+    | error e => rw [hm] at h; cases h
+    | ok ps' => rw [hm] at h; simp only [pdelPartial, hm]; exact ih h
+
+theorem exec_forM_pdelete (ml : List (Pt Int)) (t : PTier Int) :
+    exec (ml.forM pdeleteEntry) t =
+      (match ml.foldlM deletePt t.ps with | .ok _ => .ok () | .error e => .error e, { t with ps := pdelPartial t.ps ml }) := by
+  induction ml generalizing t with
+  | nil => rfl
+  | cons m ms ih =>
+    simp only [forM_cons', exec_bind, exec_pdeleteEntry, PTier.deleteEntry, List.foldlM_cons, pdelPartial]
+    cases h : deletePt t.ps m with
+    | error e => rfl
+    | ok r =>
+      have := ih { t with ps := r }
+      simp only [bind, Except.bind, pure, Except.pure] at this ⊢
+      rw [this]
+
+theorem sortPts_ne_nil {ps : List (Pt Int)} (h : ps ≠ []) : sortPts ps ≠ [] := by
+  intro h0
+  have := List.length_mergeSort (le := Pt.le) ps
+  unfold sortPts at h0
+  rw [h0] at this
+  cases ps with
+  | nil => exact h rfl
+  | cons a as => simp at this
+
+/-- point_tier.py L380-392 -/
+theorem exec_pinsertFinish (ml : List (Pt Int)) (rep : Report) (t1 : PTier Int) (hne : t1.ps ≠ []) :
+    exec (pinsertFinish ml rep) t1 =
+      (if ml.isEmpty = false ∧ rep = .error then .error .CollisionError else .ok (), growSpanP t1 (sortPts t1.ps)) := by
+  have hs := sortPts_ne_nil hne
+  unfold pinsertFinish psort
+  simp only [exec_bind, exec_modify, exec_get]
+  cases hh : (sortPts t1.ps).head? with
+  | none => exact absurd (List.head?_eq_none_iff.1 hh) hs
+  | some f =>
+    cases hl : (sortPts t1.ps).getLast? with
+    | none => exact absurd (List.getLast?_eq_none_iff.1 hl) hs
+    | some g =>
+      simp only [exec_ite, exec_modify, exec_pure, exec_report, growSpanP, hh, hl]
+      by_cases c1 : f.t < t1.lo <;> by_cases c2 : t1.hi < g.t <;> cases hml : ml.isEmpty <;>
+        cases rep <;> simp [c1, c2, hl, exec_bind, exec_get, exec_modify, exec_ite, exec_report]
+
+/-- **refinement, PointTier.insertEntry**, every reporting mode; a raise leaves the tier untouched except when it is the
+reporter's (`rep = .error`, after every write) -/
+theorem exec_pinsertEntry_gen (t : PTier Int) (x : Pt Int) (mode : InsMode) (rep : Report) :
+    exec (pinsertEntry x mode rep) t = match t.insertEntry x mode with
+      | .ok t' => (if (t.ps.filter (fun p => p.t == x.t)).isEmpty = false ∧ rep = .error
+                    then .error .CollisionError else .ok (), t')
+      | .error e => (.error e, t) := by
+  unfold pinsertEntry PTier.insertEntry
+  simp only [exec_bind, exec_get]
+  simp only [bind, Except.bind]
+  cases hml : (t.ps.filter (fun p => p.t == x.t)).isEmpty with
+  | true =>
+    simp only [if_true, exec_bind', exec_modify, pure, Except.pure]
+    rw [exec_pinsertFinish _ _ _ (by simp)]
+    simp [hml, growSpanP]
+  | false =>
+    have hd := C05.deleteAll_at t.ps x.t
+    cases mode with
+    | error => rfl
+    | replace =>
+      simp only [Bool.false_eq_true, if_false, exec_bind', exec_forM_pdelete, hd]
+      simp only [exec_modify, pure, Except.pure, pdelPartial_ok hd]
+      rw [exec_pinsertFinish _ _ _ (by simp)]
+      simp [hml, growSpanP]
+    | merge =>
+      simp only [Bool.false_eq_true, if_false, exec_bind', exec_forM_pdelete, hd]
+      simp only [exec_modify, pure, Except.pure, pdelPartial_ok hd]
+      rw [exec_pinsertFinish _ _ _ (by simp)]
+      simp [hml, growSpanP]
+
+/-- (b) for `PointTier.insertEntry` in the documented reporting modes -/
+theorem exec_pinsertEntry (t : PTier Int) (x : Pt Int) (mode : InsMode) (rep : Report) (hrep : rep ≠ .error) :
+    exec (pinsertEntry x mode rep) t = match t.insertEntry x mode with
+      | .ok t' => (.ok (), t')
+      | .error e => (.error e, t) := by
+  rw [exec_pinsertEntry_gen]
+  cases t.insertEntry x mode <;> simp [hrep]
+
+/-- (a) for `PointTier.insertEntry`: no hypothesis on the tier at all -/
+theorem pinsertEntry_atomic (t : PTier Int) (x : Pt Int) (mode : InsMode) (rep : Report) (hrep : rep ≠ .error)
+    (e : Err) (t' : PTier Int) (h : exec (pinsertEntry x mode rep) t = (.error e, t')) : t' = t := by
+  rw [exec_pinsertEntry t x mode rep hrep] at h
+  cases h2 : t.insertEntry x mode <;> rw [h2] at h <;> simp at h
+  exact h.2.symm
+
+
+/-! ## all mutators at once: the operations of C11 / C12 run at statement level -/
+
+/-- a C11 operation on an interval tier, run as the code runs it (`rep` = collisionReportingMode) -/
+def tierStep (rep : Report) : C11.Op → M (ITier Int) Unit
+  | .insert x m => iinsertEntry x m rep
+  | .delete x => ideleteEntry x
+
+/-- a C11 operation on a point tier -/
+def ptierStep (rep : Report) : C11.PIOp → M (PTier Int) Unit
+  | .insert x m => pinsertEntry x m rep
+  | .delete x => pdeleteEntry x
+
+/-- a C12 operation on a Textgrid -/
+def tgStep : C12.TgOp → M (Tg Int) Unit
+  | .add t idx rep => addTier t idx rep
+  | .remove n => do let _ ← removeTier n; pure ()
+  | .rename o n => renameTier o n
+  | .replace n t rep => replaceTier n t rep
+
+/-- the outcome of a run without the returned value: `none` = returned, `some e` = raised `e` -/
+def raised {β : Type} (r : Except Err β) : Option Err := match r with | .ok _ => none | .error e => some e
+
 end Imp
+
+namespace C13
+open Imp
+
+/-- **(b) interval tiers**: the statement-level run of a C11 operation returns iff `C11.step` does, then with the same
+tier; it raises iff `C11.step` fails, with the same error class.  Every C11 theorem (collision policy, order, span growth,
+`history_refines_list`) is therefore a theorem about the statement-level mutators -/
+theorem tierStep_refines (t : ITier Int) (op : C11.Op) (rep : Report) (hrep : rep ≠ .error) :
+    (∀ t', C11.step t op = .ok t' → exec (tierStep rep op) t = (.ok (), t')) ∧
+    (∀ e, C11.step t op = .error e → (exec (tierStep rep op) t).1 = .error e) := by
+  cases op with
+  | insert x m =>
+    simp only [C11.step, tierStep]
+    rw [exec_iinsertEntry t x m rep hrep]
+    cases t.insertEntry x m <;> simp
+  | delete x =>
+    simp only [C11.step, tierStep]
+    rw [exec_ideleteEntry]
+    cases t.deleteEntry x <;> simp
+
+/-- **(a) interval tiers**: a raising insertEntry / deleteEntry leaves a well-formed tier exactly as it was -/
+theorem tier_mutator_atomic_stmt (t : ITier Int) (hwf : t.WF) (op : C11.Op) (rep : Report) (hrep : rep ≠ .error)
+    (e : Err) (t' : ITier Int) (h : exec (tierStep rep op) t = (.error e, t')) : t' = t := by
+  cases op with
+  | insert x m => exact iinsertEntry_atomic t hwf x m rep hrep e t' h
+  | delete x => exact ideleteEntry_atomic x t t' e h
+
+/-- **(b) point tiers** -/
+theorem ptierStep_refines (t : PTier Int) (op : C11.PIOp) (rep : Report) (hrep : rep ≠ .error) :
+    (∀ t', C11.pistep t op = .ok t' → exec (ptierStep rep op) t = (.ok (), t')) ∧
+    (∀ e, C11.pistep t op = .error e → (exec (ptierStep rep op) t).1 = .error e) := by
+  cases op with
+  | insert x m =>
+    simp only [C11.pistep, ptierStep]
+    rw [exec_pinsertEntry t x m rep hrep]
+    cases t.insertEntry x m <;> simp
+  | delete x =>
+    simp only [C11.pistep, ptierStep]
+    rw [exec_pdeleteEntry]
+    cases t.deleteEntry x <;> simp
+
+/-- **(a) point tiers**: no hypothesis on the tier -/
+theorem ptier_mutator_atomic_stmt (t : PTier Int) (op : C11.PIOp) (rep : Report) (hrep : rep ≠ .error)
+    (e : Err) (t' : PTier Int) (h : exec (ptierStep rep op) t = (.error e, t')) : t' = t := by
+  cases op with
+  | insert x m => exact pinsertEntry_atomic t x m rep hrep e t' h
+  | delete x => exact pdeleteEntry_atomic x t t' e h
+
+/-- **(b) Textgrid**: the statement-level run of addTier / removeTier / renameTier / replaceTier on a dict (unique keys)
+returns iff `C12.step` does, then with the same textgrid; it raises iff `C12.step` fails, with the same error class.
+`C12.tg_refines_list`, `span_widens`, … transfer -/
+theorem tgStep_refines (g : Tg Int) (hnd : g.names.Nodup) (op : C12.TgOp) :
+    (∀ g', C12.step g op = .ok g' → (exec (tgStep op) g).2 = g' ∧ raised (exec (tgStep op) g).1 = none) ∧
+    (∀ e, C12.step g op = .error e → raised (exec (tgStep op) g).1 = some e) := by
+  cases op with
+  | add t idx rep =>
+    simp only [C12.step, tgStep]
+    rw [exec_addTier g hnd]
+    cases g.addTier t idx rep <;> simp [raised]
+  | remove n =>
+    simp only [C12.step, tgStep, exec_bind, exec_removeTier_raw, C12.removeTier_eq]
+    by_cases h : n ∈ g.names
+    · obtain ⟨t, ht⟩ := find_isSome_of_mem (l := g.tiers) h
+      simp [ht, h, raised]
+    · have : g.tiers.find? (·.name == n) = none := by
+        cases hf : g.tiers.find? (·.name == n) with
+        | none => rfl
+        | some t => exact absurd (List.mem_map.2 ⟨t, (C12.find_name hf).1, (C12.find_name hf).2⟩) h
+      simp [this, h, raised]
+  | rename o n =>
+    simp only [C12.step, tgStep]
+    rw [exec_renameTier g hnd]
+    cases g.renameTier o n <;> simp [raised]
+  | replace n t rep =>
+    simp only [C12.step, tgStep]
+    rw [exec_replaceTier g hnd]
+    cases g.replaceTier n t rep <;> simp [raised]
+
+/-- **(a) Textgrid**: a raising addTier / removeTier / renameTier / replaceTier leaves the textgrid exactly as it was.
+`hnd`: the state is a dict; `hwf`: its tiers are well-formed (C05), needed by `renameTier` only -/
+theorem tg_mutator_atomic_stmt (g : Tg Int) (hnd : g.names.Nodup) (hwf : ∀ t ∈ g.tiers, C12.AnyWF t) (op : C12.TgOp)
+    (e : Err) (g' : Tg Int) (h : exec (tgStep op) g = (.error e, g')) : g' = g := by
+  cases op with
+  | add t idx rep => exact addTier_atomic g hnd t idx rep e g' h
+  | remove n =>
+    simp only [tgStep, exec_bind, exec_removeTier_raw] at h
+    cases hf : g.tiers.find? (·.name == n) <;> rw [hf] at h <;> simp at h
+    exact h.2.symm
+  | rename o n =>
+    refine renameTier_atomic g hnd o n ?_ e g' h
+    intro t ht
+    unfold Tg.getTier at ht
+    cases hf : g.tiers.find? (·.name == o) with
+    | none => rw [hf] at ht; cases ht
+    | some u => rw [hf] at ht; cases ht; exact hwf _ (C12.find_name hf).1
+  | replace n t rep => exact replaceTier_atomic g hnd n t rep e g' h
+
+end C13
+
+/-! ## (c) non-vacuity: concrete runs, and what the layer tells apart -/
+
+namespace C13
+open Imp
+
+/-- observable state of a tier / textgrid as plain data (decidable equality) -/
+def snapI (t : ITier Int) : String × List (Iv Int) × Int × Int := (t.name, t.es, t.lo, t.hi)
+structure SnapTier where
+  name : String
+  es : List (Iv Int)
+  ps : List (Pt Int)
+  lo : Int
+  hi : Int
+deriving DecidableEq
+structure SnapTg where
+  tiers : List SnapTier
+  lo : Option Int
+  hi : Option Int
+deriving DecidableEq
+def snapA : AnyTier Int → SnapTier
+  | .I t => ⟨t.name, t.es, [], t.lo, t.hi⟩
+  | .P t => ⟨t.name, [], t.ps, t.lo, t.hi⟩
+def snapG (g : Tg Int) : SnapTg := ⟨g.tiers.map snapA, g.lo, g.hi⟩
+
+def exT : ITier Int := ⟨"a", [⟨1, 2, "x"⟩, ⟨3, 4, "y"⟩], 0, 5⟩
+def exP : PTier Int := ⟨"p", [⟨1, "x"⟩], 0, 5⟩
+def exB : ITier Int := ⟨"b", [], 0, 5⟩
+def exWide : ITier Int := ⟨"c", [⟨1, 2, "x"⟩], 0, 7⟩
+def exG : Tg Int := ⟨[.I exT, .P exP, .I exB], some 0, some 5⟩
+def exUnstripped : ITier Int := ⟨"a", [⟨1, 2, "x"⟩, ⟨3, 4, " y"⟩], 0, 5⟩
+def exBad : Tg Int := ⟨[.I ⟨"a", [⟨1, 3, "x"⟩, ⟨2, 4, "y"⟩], 0, 5⟩, .P exP], some 0, some 5⟩
+
+/-! concrete runs of the statement-level mutators (evaluated; the kernel cannot unfold `List.mergeSort`) -/
+
+-- an insert that collides, in `error` mode, on a tier with entries: CollisionError, the tier is untouched
+#guard raised (exec (iinsertEntry ⟨1, 7, "n"⟩ .error .silence) exT).1 = some .CollisionError
+#guard snapI (exec (iinsertEntry ⟨1, 7, "n"⟩ .error .silence) exT).2 = snapI exT
+-- the same insert in `merge` mode goes through: both entries deleted, the fused entry appended, sorted, the span grown
+#guard raised (exec (iinsertEntry ⟨1, 7, " n "⟩ .merge .warning) exT).1 = none
+#guard snapI (exec (iinsertEntry ⟨1, 7, " n "⟩ .merge .warning) exT).2 = ("a", [⟨1, 7, "x-n-y"⟩], 0, 7)
+-- a zero-length interval: ArgumentError from the crop, nothing written
+#guard raised (exec (iinsertEntry ⟨2, 2, "n"⟩ .replace .silence) exT).1 = some .ArgumentError
+#guard snapI (exec (iinsertEntry ⟨2, 2, "n"⟩ .replace .silence) exT).2 = snapI exT
+-- deleteEntry of an absent entry
+#guard raised (exec (ideleteEntry ⟨1, 2, "absent"⟩) exT).1 = some .ValueError
+#guard snapI (exec (ideleteEntry ⟨1, 2, "absent"⟩) exT).2 = snapI exT
+-- renameTier onto an existing name: TierNameExistsError before anything is removed
+#guard raised (exec (renameTier "a" "p") exG).1 = some .TierNameExistsError
+#guard snapG (exec (renameTier "a" "p") exG).2 = snapG exG
+-- replaceTier that fails under reportingMode='error' (the new tier is wider than the textgrid): the old tier has been
+-- removed (L535) when addTier raises, the `except` block puts it back at position 0
+#guard raised (exec (replaceTier "a" (.I exWide) .error) exG).1 = some .TextgridStateAutoModified
+#guard snapG (exec (replaceTier "a" (.I exWide) .error) exG).2 = snapG exG
+-- … and the state the handler starts from is NOT the original one: the rollback does real work
+#guard snapG (exec (do let _ ← removeTier "a"; addTier (.I exWide) (some 0) .error) exG).2 ≠ snapG exG
+-- the same replacement in 'warning' mode succeeds: the new tier sits at position 0 and the span has widened
+#guard (exec (replaceTier "a" (.I exWide) .warning) exG).2.names = ["c", "p", "b"]
+#guard (exec (replaceTier "a" (.I exWide) .warning) exG).2.hi = some 7
+-- addTier with a bad index (7 > len, -9 < -len) is `list.insert`: clamped, never an IndexError
+#guard (exec (addTier (.I exWide) (some 7) .silence) exG).2.names = ["a", "p", "b", "c"]
+#guard (exec (addTier (.I exWide) (some (-9)) .silence) exG).2.names = ["c", "a", "p", "b"]
+-- the seeded variants on the same inputs
+#guard snapI (exec (iinsertEntry_mutF ⟨1, 7, "n"⟩ .error .silence) exT).2 = ("a", [⟨1, 2, "x"⟩, ⟨3, 4, "y"⟩], 0, 7)
+#guard snapI (exec (iinsertEntry_mutF ⟨1, 7, " n "⟩ .merge .warning) exT).2 = snapI (exec (iinsertEntry ⟨1, 7, " n "⟩ .merge .warning) exT).2
+#guard (exec (replaceTier_mutB "a" (.I exWide) .error) exG).2.names = ["p", "b", "a"]
+-- why `rep ≠ .error` is a hypothesis: collisionReportingMode='error' (outside the signature's Literal["silence","warning"],
+-- but accepted by validateOption) raises AFTER the tier has been modified
+#guard raised (exec (iinsertEntry ⟨1, 7, "n"⟩ .replace .error) exT).1 = some .CollisionError
+#guard snapI (exec (iinsertEntry ⟨1, 7, "n"⟩ .replace .error) exT).2 = ("a", [⟨1, 7, "n"⟩], 0, 7)
+-- why `t.WF` is a hypothesis of `iinsertEntry_atomic`: on a tier holding an unstripped label (not constructible through the
+-- class) the second deletion of the `replace` loop raises ValueError after the first one has been carried out
+#guard raised (exec (iinsertEntry ⟨1, 4, "n"⟩ .replace .silence) exUnstripped).1 = some .ValueError
+#guard snapI (exec (iinsertEntry ⟨1, 4, "n"⟩ .replace .silence) exUnstripped).2 = ("a", [⟨3, 4, " y"⟩], 0, 5)
+-- why well-formedness of the renamed tier is a hypothesis of `renameTier_atomic`: `oldTier.new(newName, …)` (L523) validates
+-- AFTER `removeTier` (L522); on a tier with overlapping entries (not constructible through the class) the tier is gone
+#guard raised (exec (renameTier "a" "z") exBad).1 = some .TextgridStateError
+#guard (exec (renameTier "a" "z") exBad).2.names = ["p"]
+
+theorem exT_wf : exT.WF := by
+  refine ⟨?_, ?_, ?_, ?_, ?_, ?_⟩ <;> simp [exT, Pos, Disj, Stripped] <;> decide +kernel
+
+/-- **wrong variant 1 (seeded C13-mutF)**, in general: with the span update moved before the collision policy, EVERY colliding
+insert in `error` mode leaves the span grown to the rejected entry -/
+theorem exec_mutF_collision (t : ITier Int) (hwf : t.WF) (x : Iv Int) (hx : x.s < x.e) (hcol : C11.colliding t x ≠ [])
+    (rep : Report) :
+    exec (iinsertEntry_mutF x .error rep) t =
+      (.error .CollisionError, { t with lo := pyMin2 t.lo x.s, hi := pyMax2 t.hi x.e }) := by
+  obtain ⟨mt, hc, hm⟩ := C11.crop_matches t hwf ⟨x.s, x.e, pyStrip x.l⟩ hx
+  have hm' : mt.es = C11.colliding t x := hm
+  unfold iinsertEntry_mutF
+  simp only [exec_bind, exec_get, hc, exec_liftE_ok, exec_modify]
+  cases hml : mt.es with
+  | nil => rw [hm'] at hml; exact absurd hml hcol
+  | cons a as => rfl
+
+/-- … so atomicity FAILS for the variant on a well-formed tier in a documented reporting mode, although on every call that
+returns it computes what the code computes and `step = .error e → state unchanged` holds of its functional reading -/
+theorem mutF_not_atomic :
+    ∃ (t : ITier Int) (x : Iv Int) (e : Err) (t' : ITier Int), t.WF ∧
+      exec (iinsertEntry_mutF x .error .silence) t = (.error e, t') ∧ t'.hi ≠ t.hi ∧
+      -- the code as it is, on the same input:
+      ∀ t'', exec (iinsertEntry x .error .silence) t = (.error e, t'') → t'' = t := by
+  have hcol : C11.colliding exT ⟨1, 7, "n"⟩ ≠ [] := by simp [C11.colliding, exT, ov]
+  refine ⟨exT, ⟨1, 7, "n"⟩, .CollisionError, _, exT_wf,
+    exec_mutF_collision exT exT_wf ⟨1, 7, "n"⟩ (by decide) hcol .silence, ?_, ?_⟩
+  · simp [exT, pyMax2]
+  · intro t'' h
+    exact iinsertEntry_atomic exT exT_wf _ _ _ (by decide) _ _ h
+
+/-- **wrong variant 2 (seeded C13-mutB)**, in general: when `addTier` raises, the rollback `self.addTier(oldTier, 'silence')`
+puts the old tier at the END -/
+theorem exec_mutB_fail (g : Tg Int) (hnd : g.names.Nodup) (n : String) (t : AnyTier Int) (rep : Report)
+    (k : Nat) (old : AnyTier Int) (e : Err) (hk : C12.idxOf g.tiers n = some k)
+    (hold : g.tiers.find? (·.name == n) = some old)
+    (ha : Tg.addTier ⟨C12.dropName g.tiers n, g.lo, g.hi⟩ t (some (k : Int)) rep = .error e) :
+    exec (replaceTier_mutB n t rep) g =
+      (.error e, ⟨C12.dropName g.tiers n ++ [old], some (C12.widenLo g.lo old.lo), some (C12.widenHi g.hi old.hi)⟩) := by
+  have hnd1 : (C12.namesOf (C12.dropName g.tiers n)).Nodup := C12.nodup_dropName n hnd
+  have hp : e.isPraatio = true := by
+    rcases C13.addTier_fails_before_mutation _ t _ rep e ha with ⟨_, rfl⟩ | ⟨_, _, rfl⟩ <;> rfl
+  have holdn : old.name = n := (C12.find_name hold).2
+  have hfr : old.name ∉ Tg.names ⟨C12.dropName g.tiers n, g.lo, g.hi⟩ := by
+    rw [holdn]; intro hm; have := (C12.mem_names_dropName.1 hm); simp at this
+  unfold replaceTier_mutB
+  simp only [exec_bind, exec_get, indexOf_eq, hk, exec_pure, exec_removeTier_raw, hold, exec_tryCatch]
+  rw [exec_addTier ⟨C12.dropName g.tiers n, g.lo, g.hi⟩ hnd1, ha]
+  simp only [hp, if_true, exec_bind, exec_bind']
+  rw [exec_addTier ⟨C12.dropName g.tiers n, g.lo, g.hi⟩ hnd1, C12.addTier_fresh _ _ _ _ hfr]
+  simp [C12.insAt]
+
+theorem mutB_not_atomic :
+    ∃ (g : Tg Int) (n : String) (t : AnyTier Int) (e : Err) (g' : Tg Int), g.names.Nodup ∧
+      exec (replaceTier_mutB n t .error) g = (.error e, g') ∧ g'.names ≠ g.names ∧
+      -- the code as it is, on the same input:
+      ∀ g'', exec (replaceTier n t .error) g = (.error e, g'') → g'' = g := by
+  have hnd : exG.names.Nodup := by simp [exG, Tg.names, AnyTier.name, exT, exP, exB]
+  have hk : C12.idxOf exG.tiers "a" = some 0 := by
+    simp only [C12.idxOf, C12.namesOf, exG, List.map, AnyTier.name, exT, exP, exB]; decide
+  have hold : exG.tiers.find? (·.name == "a") = some (.I exT) := by simp [exG, AnyTier.name, exT]
+  have ha : Tg.addTier ⟨C12.dropName exG.tiers "a", exG.lo, exG.hi⟩ (.I exWide) (some ((0 : Nat) : Int)) .error
+      = .error .TextgridStateAutoModified := by
+    apply C12.addTier_report
+    · simp [Tg.names, C12.dropName, exG, AnyTier.name, exT, exP, exB, exWide]
+    · simp [C12.spanChanges, exG, AnyTier.hi, AnyTier.lo, exWide]
+  refine ⟨exG, "a", .I exWide, .TextgridStateAutoModified, _, hnd,
+    exec_mutB_fail exG hnd "a" (.I exWide) .error 0 (.I exT) _ hk hold ha, ?_, ?_⟩
+  · simp [Tg.names, C12.dropName, exG, AnyTier.name, exT, exP, exB]
+  · intro g'' h
+    exact replaceTier_atomic exG hnd _ _ _ _ _ h
+
+end C13
